@@ -168,7 +168,8 @@ def describe(a):
     return "; ".join(r)
 
 # ----------------------------------------------------------------------------- generator
-LEAF_BOUNDS = [[0, 1]] * 6 + [[0, 3], [1, 2], [-1, 1], [-2, 1], [-3, 2], [-4, 2], [-2, 0], [0, 5], [2, 2], [-5, -1], [-5, -2], [-32768, 32767]]
+LEAF_BOUNDS = [[0, 1]] * 6 + [[0, 3], [1, 2], [-1, 1], [-2, 1], [-3, 2], [-4, 2], [-2, 0], [0, 5], [2, 2], [-5, -1], [-5, -2], [-32768, 32767],
+               [0, 32767], [0, 32768], [0, 40000], [-40000, 0], [-32768, 0], [-32769, 5]]      # at and beyond the default integer range
 OWN_BOUNDS = [[0, 1], [0, 0], [1, 1]]
 
 def collide_with(bd, rng):
@@ -818,6 +819,14 @@ def run(res, tier, seed):
     k = 1 if tier == "quick" else 12
     plan = [("tree", 130 * k), ("share", 130 * k), ("mutate", 420 * k), ("d4", 80 * k), ("d12", 20 * k), ("config", 70 * k)]
     todo = list(corpus())
+    # one item declared twice with DIFFERENT ranges that both reach the ends of the default integer range or lie beyond them
+    wide = [[0, 32767], [0, 32768], [0, 40000], [0, 32769], [-32768, 32767], [-32768, 2 ** 31 - 1], [-40000, 5], [-32768, 5], [-32769, 5], [1, 32767]]
+    wrng = random.Random(seed * 7993 + 10)
+    for _ in range(24 * k):
+        b1, b2 = wrng.sample(wide, 2)
+        todo.append(("mutate:wide-ranges", {"k": wrng.choice(["Any", "All"]), "id": "T", "ch": [
+            {"k": "All", "id": "P", "ch": [{"k": "var", "id": "x", "b": b1}, {"k": "str", "id": "p"}]},
+            {"k": wrng.choice(["All", "Any"]), "id": "Q", "ch": [{"k": "var", "id": "x", "b": b2}, {"k": "str", "id": "q"}]}]}))
     for stream, n in plan:
         for _ in range(n):
             todo.append(gen_case(rng, stream))
